@@ -274,9 +274,9 @@ def random_program(rnd, i, max_classes):
                     elif t < 0.85:
                         cls, nm = ns + "Ext;", rnd.choice(["x()V", "x(I)V", "<init>()V"])
                     elif t < 0.93:
-                        cls, nm = "[" + rnd.choice(names), "clone()" + OBJ
+                        cls, nm = "[" * rnd.choice([1, 1, 2, 3]) + rnd.choice(names + ["Ljava/lang/String;"]), "clone()" + OBJ
                     else:
-                        cls, nm = "[I", "clone%d()%s" % (i, OBJ)
+                        cls, nm = rnd.choice(["[I", "[[I", "[[J"]), "clone%d()%s" % (i, OBJ)
                     how = rnd.choice(inv_kinds) + rnd.choice(["", "/range"])
                     ins = dict(op="inv", cls=cls, name=nm, how=how)
                 elif r < 0.65:
